@@ -145,6 +145,7 @@ def run(rep: Report, tier: str) -> None:
 	rule_import_alias(rep, idx)
 	rule_relatives_by_identity(rep, idx, tier)
 	rule_identifier_classes(rep, idx)
+	rule_declarations_compared_as_nodes(rep, idx)
 	rep.extra_coverage['tainted_sites'] = len(tainted_sites)
 	rep.extra_coverage['tainted_by_kind'] = {k: sum(1 for s in tainted_sites if s.kind == k) for k in sorted({s.kind for s in tainted_sites})}
 
@@ -719,3 +720,31 @@ def rule_relatives_by_identity(rep: Report, idx: SourceIndex, tier: str) -> None
 					r.violate(f'{q}:{unparse(c_)[:50]}', (rel, c_.lineno), f'{q} compares the name of `{".".join(a)}` with the name of `{".".join(b)}` — a node and its own relative — by spelling (`{unparse(c_)[:90]}`): the test also holds for an unrelated node that is merely spelled like the member (`size.size`, `item.item`), so which variables a closure captures, or which role a node gets, depends on the names the user chose', unparse(c_))
 	if n_bad == 0:
 		r.ok('name-equalities', None, message=f'{n_cmp} equality tests between name strings of nodes; none relates a node to its own relative')
+
+
+def rule_declarations_compared_as_nodes(rep: Report, idx: SourceIndex) -> None:
+	"""Two declarations are the same binding when they are the same NODE (module path + full path); their `domain_name` / `tokens` are spellings, and two
+	distinct bindings may share one — the type parameter `T` of a class and the `T` of its base class or of a method that shadows it. An equality of
+	two nodes' name strings in the inference layer conflates such bindings: selecting schema paths by `template.domain_name ==
+	target_template.domain_name` binds `Sub[T](Base[T])`'s two T's together (`Sub(1)` becomes `Sub<int>`; renamed to U it stays `Sub<U>`), so the
+	inferred types change by more than the renaming. Expected count on the tree: zero; the recogniser runs on a positive example on every run."""
+	r = rep.rule('C08/declarations-compared-as-nodes', 'in rogw/tranp/semantics and the C++ transpiler no `==` / `!=` compares the domain_name / tokens of one node with the domain_name / tokens of another node', floor=0)
+
+	def sites(tree: ast.AST):
+		for n in ast.walk(tree):
+			if not (isinstance(n, ast.Compare) and len(n.ops) == 1 and isinstance(n.ops[0], (ast.Eq, ast.NotEq))):
+				continue
+			a, b = n.left, n.comparators[0]
+			if isinstance(a, ast.Attribute) and isinstance(b, ast.Attribute) and a.attr in ('domain_name', 'tokens') and b.attr == a.attr and unparse(a.value) != unparse(b.value):
+				yield n
+	fixture = ast.parse('def f(schema_templates, target_template):\n\treturn [p for p, t in schema_templates.items() if t.domain_name == target_template.domain_name]\n')
+	if len(list(sites(fixture))) != 1:
+		raise AnalysisError('C08/declarations-compared-as-nodes: the recogniser no longer matches its positive example')
+	n_ = 0
+	for rel in list(idx.all_py(('rogw/tranp/semantics',))) + ['rogw/tranp/implements/cpp/transpiler/py2cpp.py']:
+		m = idx.mod(rel)
+		for n in sites(m.tree):
+			n_ += 1
+			r.violate(f'{rel}:{unparse(n)[:60]}', (rel, n.lineno), f'`{unparse(n)[:90]}` decides that two declarations are the same by their spelling: distinct bindings with one name (the type parameter T of a class and the T of its base class, a method parameter shadowing a class parameter) are taken for each other — `class Sub[T](Base[T])`, `Sub(1)` is inferred Sub<int> while the same program with Sub\'s parameter renamed to U gives Sub<U>: the output changes by more than the renaming', unparse(n)[:100])
+	if n_ == 0:
+		r.ok('no-spelling-comparison', None, message='no equality of two nodes\' name strings in the inference layer')
